@@ -414,7 +414,19 @@ static mut IO_CALLS: usize = 0;
 static mut IO_LEN: usize = 0;
 static mut IO_BYTE: u8 = 0;
 
-/// A reader / writer whose single answer is chosen by the harness: 0 = Ok(0), 1 = Ok(1), 2 = Err.
+/// A reader / writer whose FIRST answer is chosen by the harness: 0 = Ok(0), 1 = Ok(1), 2.. = Err of
+/// one of several kinds (among them Interrupted and WouldBlock, which retrying helpers such as
+/// `write_all` / `read_exact` treat specially); every later call -- there must be none -- succeeds.
+fn err_kind(mode: u8) -> io::ErrorKind {
+    match mode {
+        2 => io::ErrorKind::Other,
+        3 => io::ErrorKind::Interrupted,
+        4 => io::ErrorKind::WouldBlock,
+        5 => io::ErrorKind::BrokenPipe,
+        _ => io::ErrorKind::UnexpectedEof,
+    }
+}
+
 struct Oracle {
     mode: u8,
     byte: u8,
@@ -422,32 +434,34 @@ struct Oracle {
 
 impl Read for Oracle {
     fn read(&mut self, buf: &mut [u8]) -> io::Result<usize> {
-        unsafe {
+        let first = unsafe {
             IO_CALLS += 1;
             IO_LEN = buf.len();
-        }
+            IO_CALLS == 1
+        };
         match self.mode {
-            0 => Ok(0),
-            1 => {
+            0 if first => Ok(0),
+            m if first && m >= 2 => Err(io::Error::from(err_kind(m))),
+            _ => {
                 buf[0] = self.byte;
                 Ok(1)
             }
-            _ => Err(io::Error::from(io::ErrorKind::Other)),
         }
     }
 }
 
 impl Write for Oracle {
     fn write(&mut self, buf: &[u8]) -> io::Result<usize> {
-        unsafe {
+        let first = unsafe {
             IO_CALLS += 1;
             IO_LEN = buf.len();
             IO_BYTE = buf[0];
-        }
+            IO_CALLS == 1
+        };
         match self.mode {
-            0 => Ok(0),
-            1 => Ok(1),
-            _ => Err(io::Error::from(io::ErrorKind::Other)),
+            0 if first => Ok(0),
+            m if first && m >= 2 => Err(io::Error::from(err_kind(m))),
+            _ => Ok(1),
         }
     }
     fn flush(&mut self) -> io::Result<()> {
@@ -460,7 +474,7 @@ impl Write for Oracle {
 fn u2_context_input() {
     let present: bool = kani::any();
     let mode: u8 = kani::any();
-    kani::assume(mode <= 2);
+    kani::assume(mode <= 6);
     let byte: u8 = kani::any();
     let budget: usize = kani::any();
     let mut cxt: Context<u8> = if present {
@@ -471,7 +485,7 @@ fn u2_context_input() {
     cxt.budget = budget;
     let r = cxt.input();
     // result mapping: failure <=> source absent or Err; end of input reads as 0
-    if !present || mode == 2 {
+    if !present || mode >= 2 {
         assert!(r.is_none());
     } else if mode == 0 {
         assert!(r == Some(0));
@@ -494,7 +508,7 @@ fn u2_context_input() {
 fn u2_context_output() {
     let present: bool = kani::any();
     let mode: u8 = kani::any();
-    kani::assume(mode <= 2);
+    kani::assume(mode <= 6);
     let value: u8 = kani::any();
     let budget: usize = kani::any();
     let mut cxt: Context<u8> = if present {
@@ -505,7 +519,7 @@ fn u2_context_output() {
     cxt.budget = budget;
     let r = cxt.output(value);
     // a refused byte (Ok(0)) or an error is a failure; no sink is success
-    if present && (mode == 0 || mode == 2) {
+    if present && (mode == 0 || mode >= 2) {
         assert!(r.is_none());
     } else {
         assert!(r == Some(()));
